@@ -18,7 +18,7 @@ RULE = ("(A) pairs of plain trees with overlapping and disjoint keys at depth <=
         "equal load_tree(model-merged tree) into a fresh configuration, and unresolved includes must fail; "
         "non-trivial = merge pair with an overlapping key, or a file case with >= 1 include processed; distinct = "
         "distinct case content")
-REQUIRED = ("yaml_documents_with_aliased_include_scope", "file_cases_include_inside_a_config_type", "file_cases_first_include_field_declared_again_last", "file_cases_start_directory_is_the_file_system_root", "file_cases_denormalised_absolute_names", "file_cases_include_fields_with_friendly_names", "include_field_declared_after_first_use", "file_cases_same_file_included_twice_in_scope", "file_cases_env_bound_include_fields", "file_cases_tilde_below_startdir", "file_cases_with_format_options", "reloads_after_include_files_rewritten", "startdir_form:rel", "startdir_form:home", "nested_schema_declared_before_includes", "merge_pairs_compared", "merge_purity_checks", "file_cases_compared", "file_cases_nested_include",
+REQUIRED = ("file_cases_include_in_a_switched_off_feature", "yaml_documents_with_aliased_include_scope", "file_cases_include_inside_a_config_type", "file_cases_first_include_field_declared_again_last", "file_cases_start_directory_is_the_file_system_root", "file_cases_denormalised_absolute_names", "file_cases_include_fields_with_friendly_names", "include_field_declared_after_first_use", "file_cases_same_file_included_twice_in_scope", "file_cases_env_bound_include_fields", "file_cases_tilde_below_startdir", "file_cases_with_format_options", "reloads_after_include_files_rewritten", "startdir_form:rel", "startdir_form:home", "nested_schema_declared_before_includes", "merge_pairs_compared", "merge_purity_checks", "file_cases_compared", "file_cases_nested_include",
             "file_cases_chain", "file_cases_unresolvable_rejected", "file_cases_relative_startdir")
 ASSUMPTIONS = ["documents and include files are produced with the library's own codecs (decided by C04)",
                "the merged tree keeps the include key; included files naming an already processed include field of the "
@@ -81,7 +81,9 @@ def generate(rng, ctx):
               "env_inc": rng.random() < 0.2, "named_inc": rng.random() < 0.35, "root_startdir_probe": rng.random() < 0.12, "ctype_include_probe": rng.random() < 0.12, "redeclare_first": rng.random() < 0.25,
               # the nested schema may be declared before the scope's own include fields; start directories may be given
               # absolute, relative to the working directory at load time, or relative to the home directory
-              "sub_first": rng.random() < 0.5, "startdir_form": rng.choice(["abs", "abs", "rel", "home"])}
+              "sub_first": rng.random() < 0.5, "startdir_form": rng.choice(["abs", "abs", "rel", "home"]),
+              # the nested scope is a feature that is switched off until a document switches it on: its includes count all the same
+              "sub_flag": rng.random() < 0.3}
     files = {}  # relative file name -> tree
 
     def inc_target(name, startdir, treefn, sub=None):
@@ -153,6 +155,8 @@ def generate(rng, ctx):
             v, how = inc_target("d0", None, lambda: {"z": rng.randrange(50, 99), "data": holder()})
             doc["sub"]["deep"]["inc"] = v
             kinds.append(how)
+    if layout["sub_flag"] and "sub" in doc and rng.random() < 0.6:
+        doc["sub"]["enabled"] = True
     return {"kind": "files", "fmt": fmt, "layout": layout, "doc": doc, "files": files, "inc_kinds": kinds,
             "use_load": rng.random() < 0.5,
             # format options given to load()/loads(): the included files are written and must be read with them too
@@ -244,6 +248,8 @@ def _schema(cc, layout, d, early=False):
         root.sub.b = cc.StringField()
         root.sub.data = cc.DictField()
         root.sub.lst = cc.ListField()
+        if layout.get("sub_flag"):
+            root.sub.enabled = cc.FeatureFlagField(default=False)
         if layout.get("sub_first"):
             root.sub.deep.z = cc.IntField()
             root.sub.deep.data = cc.DictField()
@@ -522,6 +528,8 @@ def run_files(case, ctx, res):
     if "again" in case["inc_kinds"]:
         res.count("file_cases_same_file_included_twice_in_scope")
     res.count("startdir_form:" + layout.get("startdir_form", "abs"))
+    if layout.get("sub_flag") and isinstance(case["doc"].get("sub"), dict) and "inc" in case["doc"]["sub"]:
+        res.count("file_cases_include_in_a_switched_off_feature")
     if layout.get("sub_first"):
         res.count("nested_schema_declared_before_includes")
     os.chdir(d)  # relative start directories are resolved now, not when the schema was declared
